@@ -56,11 +56,13 @@ structure EnumValue where
   description : Str
 deriving DecidableEq
 
-/-- `DataTypeDefinition` / `EnumerationDataTypeDefinition` (`values = []` for the former) -/
+/-- `DataTypeDefinition` (`isEnum = false`; it has no `values` attribute, `values = []` here) /
+`EnumerationDataTypeDefinition` -/
 structure DataType where
   uuid : Str
   longName : Str
   values : List EnumValue
+  isEnum : Bool := true
 deriving DecidableEq
 
 /-- `AttributeDefinition` (`isEnum = false`) / `AttributeDefinitionEnumeration` -/
@@ -123,6 +125,35 @@ structure ModType where
   uuid : Str
   longName : Str
 
+/-- `_AttributeDefinition(attr.definition, _attrtype2reqif(attr))` -/
+abbrev ADKey := Option AttrDef × Kind
+
+/-! ### stable sort (`sorted(children, key=…)`), also used to describe a set's iteration order -/
+
+def insertBy {α : Type} (le : α → α → Bool) (a : α) : List α → List α
+  | [] => [a]
+  | b :: l => if le a b then a :: b :: l else b :: insertBy le a l
+
+def sortBy {α : Type} (le : α → α → Bool) : List α → List α
+  | [] => []
+  | a :: l => insertBy le a (sortBy le l)
+
+theorem insertBy_perm {α : Type} (le : α → α → Bool) (a : α) : ∀ l : List α, (insertBy le a l).Perm (a :: l)
+  | [] => .refl _
+  | b :: l => by
+    unfold insertBy
+    split
+    · exact .refl _
+    · exact ((insertBy_perm le a l).cons b).trans (.swap a b l)
+
+theorem sortBy_perm {α : Type} (le : α → α → Bool) : ∀ l : List α, (sortBy le l).Perm l
+  | [] => .refl _
+  | a :: l => (insertBy_perm le a _).trans ((sortBy_perm le l).cons a)
+
+/-- The module together with the iteration order of the `set[_AttributeDefinition]` objects of this run:
+`setOrder k l` is the order in which the set collected for requirement type key `k` yields the
+definitions first seen in the order `l`. Python fixes it by string hashes (`PYTHONHASHSEED`); here it is
+any rearrangement. -/
 structure Module where
   modelUuid : Str
   uuid : Str
@@ -131,6 +162,8 @@ structure Module where
   type : Option ModType
   reqs : List Req
   folders : List Folder
+  setOrder : Option Str → List ADKey → List ADKey := fun _ l => l
+  setOrder_perm : ∀ k l, (setOrder k l).Perm l := by intros; exact .refl _
 
 /-! ## the module's depth-first order (the specification the traversals are compared with) -/
 
@@ -334,14 +367,15 @@ def typeKey (r : Req) : Option Str := r.type.map (·.uuid)
 def reqTypes (m : Module) : List (Option ReqType) :=
   dedupBy (fun t => t.map (·.uuid)) ((collected m).map (·.type))
 
-abbrev ADKey := Option AttrDef × Kind
-
 /-- `_AttributeDefinition(attr.definition, _attrtype2reqif(attr))` -/
 def adKey (a : Attr) : ADKey := (a.defn, a.value.kind)
 
-/-- `req_types[key]`: the set of definitions used by requirements of that type -/
-def adefsOf (m : Module) (k : Option Str) : List ADKey :=
+/-- `req_types[key]`: the set of definitions used by requirements of that type, in first-seen order -/
+def adefsSeen (m : Module) (k : Option Str) : List ADKey :=
   dedup (((collected m).filter (fun r => typeKey r = k)).flatMap (fun r => r.attrs.map adKey))
+
+/-- … as the set yields them when it is iterated (`for attr_def in attr_defs`, `chain.from_iterable`) -/
+def adefsOf (m : Module) (k : Option Str) : List ADKey := m.setOrder k (adefsSeen m k)
 
 /-! ## `_synthesize_standard_datatypes`, `_build_datatypes` -/
 
@@ -372,20 +406,14 @@ def allAdefs (m : Module) : List ADKey := (reqTypes m).flatMap (fun t => adefsOf
 def customDatatypes (m : Module) : List DatatypeEl :=
   dedupBy (·.key) ((allAdefs m).map datatypeEl)
 
+/-- the definitions that get past `if id in visited_types: continue` -/
+def dtWinners (m : Module) : List ADKey := dedupBy (fun x => (datatypeEl x).key) (allAdefs m)
+
 /-- code point order on strings (Python's `sorted` key order) -/
 def strLe : Str → Str → Bool
   | [], _ => true
   | _ :: _, [] => false
   | a :: as, b :: bs => if a.val < b.val then true else if b.val < a.val then false else strLe as bs
-
-/-- stable sort (`sorted(children, key=…)`), by insertion so that it evaluates structurally -/
-def insertBy {α : Type} (le : α → α → Bool) (a : α) : List α → List α
-  | [] => [a]
-  | b :: l => if le a b then a :: b :: l else b :: insertBy le a l
-
-def sortBy {α : Type} (le : α → α → Bool) : List α → List α
-  | [] => []
-  | a :: l => insertBy le a (sortBy le l)
 
 def datatypes (m : Module) : List DatatypeEl :=
   sortBy (fun a b => strLe a.key.ident.render b.key.ident.render) (stdDatatypes ++ customDatatypes m)
@@ -527,15 +555,39 @@ def doc (xhtml : Str → Option Str) (m : Module) : Doc :=
 inductive Err
   | assertion        -- `assert attr_def.modelobj is not None` (enumeration attribute without definition)
   | parser           -- `lxml.etree.ParserError` (only if even `<div></div>` does not parse)
+  | attribute        -- `AttributeError`: `.values` of a plain data type, `.multi_valued` of a plain definition
 deriving DecidableEq, Repr
+
+/-- `_build_datatypes`: `attrdef.data_type.values` for an `AttributeDefinitionEnumeration` whose data
+type is a plain `DataTypeDefinition` (which has no `values`) -/
+def dtAttrErr (x : ADKey) : Bool :=
+  match x.1 with
+  | some d => d.isEnum && (match d.dataType with | some t => !t.isEnum | none => false)
+  | none => false
+
+/-- `_build_spec_object_types`, `if attr_def.type == "ENUMERATION"`: the assertion for a missing
+definition, `modelobj.multi_valued` for a plain `AttributeDefinition` -/
+def specTypeErr (x : ADKey) : Option Err :=
+  if x.2 = .enumeration then
+    match x.1 with
+    | none => some .assertion
+    | some d => if d.isEnum then none else some .attribute
+  else none
 
 /-- does the module hold an enumeration attribute without definition (among the collected requirements)? -/
 def hasEnumWithoutDef (m : Module) : Bool :=
   (allAdefs m).any (fun x => x.1.isNone && x.2 == .enumeration)
 
+/-- does the module hold a link the metamodel's classes forbid *and* the exporter trips over: an
+enumeration definition whose data type is a plain `DataTypeDefinition` (reached by `_build_datatypes`), or
+an enumeration attribute whose definition is a plain `AttributeDefinition`? -/
+def hasClassViolation (m : Module) : Bool :=
+  (dtWinners m).any dtAttrErr || (allAdefs m).any (fun x => specTypeErr x == some .attribute)
+
 /-- the exceptions the exporter raises, in the order the code reaches them -/
 def errors (xhtml : Str → Option Str) (m : Module) : List Err :=
-  (if hasEnumWithoutDef m then [Err.assertion] else [])
+  (if (dtWinners m).any dtAttrErr then [Err.attribute] else [])
+  ++ (allAdefs m).filterMap specTypeErr
   ++ (if (m.dfs.any fun r => (stdValues xhtml r).any (fun v => v.theValue.isNone)) then [Err.parser] else [])
   ++ (if ((specification xhtml m).values.any (fun v => v.theValue.isNone)) then [Err.parser] else [])
 
